@@ -24,8 +24,8 @@ asn_TYPE_operation_t asn_OP_ObjectDescriptor = {
 	0,
 	0,
 #else
-	0,
-	0,
+	OCTET_STRING_decode_oer,	/* Same as GraphicString */
+	OCTET_STRING_encode_oer,
 #endif  /* ASN_DISABLE_OER_SUPPORT */
 #ifdef	ASN_DISABLE_PER_SUPPORT
 	0,
